@@ -908,6 +908,8 @@ struct RRun {
     reread_nonzero: bool,
     lost_wakeup: bool,
     stuck: bool,
+    /// the reader handed out more bytes than the whole stream holds (stopped there)
+    overrun: bool,
     panic: Option<String>,
     delivered: Vec<usize>,
 }
@@ -926,7 +928,13 @@ fn run_reader_sync(stream: &[u8], pre: usize, m: u32, script: &Script, user_buf:
             loop {
                 match rd.read(&mut tmp) {
                     Ok(0) => break,
-                    Ok(n) => out.out.extend_from_slice(&tmp[..n]),
+                    Ok(n) => {
+                        out.out.extend_from_slice(&tmp[..n]);
+                        if out.out.len() > stream.len() {
+                            out.overrun = true;
+                            break;
+                        }
+                    }
                     Err(e) if e.kind() == std::io::ErrorKind::Interrupted => {
                         spins += 1;
                         if spins > 1_000_000 {
@@ -940,7 +948,7 @@ fn run_reader_sync(stream: &[u8], pre: usize, m: u32, script: &Script, user_buf:
                     }
                 }
             }
-            if out.err.is_none() && !out.stuck {
+            if out.err.is_none() && !out.stuck && !out.overrun {
                 // the end is stable and does not eat into what follows
                 match rd.read(&mut tmp) {
                     Ok(0) => {}
@@ -993,6 +1001,10 @@ fn run_reader_async(stream: &[u8], pre: usize, m: u32, script: &Script, user_buf
                             continue;
                         }
                         out.out.extend_from_slice(rb.filled());
+                        if out.out.len() > stream.len() {
+                            out.overrun = true;
+                            break;
+                        }
                     }
                     Poll::Ready(Err(e)) => {
                         out.err = Some(format!("{:?}: {}", e.kind(), e));
@@ -1026,6 +1038,9 @@ fn run_reader_async(stream: &[u8], pre: usize, m: u32, script: &Script, user_buf
 fn judge_reader(api: &str, run: &RRun, payload: &[u8], following: &[u8]) -> Option<(String, String)> {
     if let Some(p) = &run.panic {
         return Some((format!("reader-{}|panic|{}", api, panic_loc(p)), format!("reader panicked: {}", p)));
+    }
+    if run.overrun {
+        return Some((format!("reader-{}|overrun", api), format!("the reader handed out {} bytes and was still going, more than the {} payload bytes the stream carries", run.out.len(), payload.len())));
     }
     if run.lost_wakeup {
         return Some((format!("reader-{}|lost-wakeup", api), "poll_read returned Pending although the source did not return Pending in that poll".into()));
